@@ -127,6 +127,26 @@ class AnmCases:
         pa_sorted = ("ext", "sorted", (("call", U + "pa", (self.i, ("self", "A")), (("A", ("self", "A")), ("i", self.i))),), ())
         ok = a[0] == "sub" and a[1] == self.X and a[2][0] == "tuple" and len(a[2][1]) == 2 and a[2][1][0] == FULL and \
             (a[2][1][1] in masks or a[2][1][1] == pa_sorted)
+        def decided_form(sel):
+            # a mask / index list taken straight from one row or column of self.A at the loop variable, or from a relation helper called on it:
+            # these are read, and if they are not one of the accepted spellings they are wrong (children instead of parents, `> 0`, set order)
+            slot = lambda t_: t_[0] == "sub" and t_[1] == ("self", "A") and t_[2][0] == "tuple" and len(t_[2][1]) == 2 and self.i in t_[2][1] and FULL in t_[2][1]
+            core = sel
+            while core[0] == "ext" and core[1] in ("list", "sorted", "tuple", "numpy.array", "numpy.flatnonzero", "numpy.nonzero", "numpy.where") and len(core[2]) == 1:
+                core = core[2][0]
+            if core[0] == "sub" and is_const(core[2], 0):
+                return decided_form(core[1])
+            if core[0] == "cmp" and len(core) == 4:
+                return slot(core[2]) or slot(core[3])
+            if core[0] == "method" and core[2] == "astype":
+                return slot(core[1])
+            if core[0] == "call" and core[1].startswith(U) and len(core[2]) == 2 and self.i in core[2] and ("self", "A") in core[2]:
+                return True
+            return slot(core)
+        whole = a[0] == "sub" and a[1] == self.X and a[2][0] == "tuple" and len(a[2][1]) == 2 and a[2][1][0] == FULL
+        if not ok and whole and not decided_form(a[2][1][1]):
+            # the column selection is computed (index arrays prepared before the loop, a helper's result): which columns these are is not read
+            raise Inconclusive("the columns handed to the assignment are selected by %s: not read" % fmt(a)[:100])
         if not ok:
             self.problems.append("assignment input is %s, not the filled columns X[:, A[:, i] != 0] of the parents in increasing index" % fmt(a)[:120])
 
